@@ -26,6 +26,8 @@ var checks = map[string][]HarnessSpec{
 	},
 	"C04": {
 		{Name: "HarnessC04Statement", Pkg: "bql", Quick: map[string]int{"K": 1}, Thorough: map[string]int{"K": 1}},
+		{Name: "HarnessC04Statement", Pkg: "bql", Quick: map[string]int{"K": 2, "KH": 0, "CASE": 11}, Thorough: map[string]int{"K": 3, "KH": 1, "CASE": 11}, Note: "reification with rows that differ only after the ';'"},
+		{Name: "HarnessC04Statement", Pkg: "bql", Quick: map[string]int{"K": 2, "KH": 0, "CASE": 10}, Thorough: map[string]int{"K": 3, "KH": 1, "CASE": 10}, Note: "reification, two and three rows"},
 		{Name: "HarnessC04Statement", Pkg: "bql", Thorough: map[string]int{"K": 2, "CASE": 0}, OnlyThorough: true},
 		{Name: "HarnessC04Statement", Pkg: "bql", Thorough: map[string]int{"K": 2, "CASE": 1}, OnlyThorough: true},
 		{Name: "HarnessC04Statement", Pkg: "bql", Thorough: map[string]int{"K": 2, "CASE": 2}, OnlyThorough: true},
@@ -36,7 +38,6 @@ var checks = map[string][]HarnessSpec{
 		{Name: "HarnessC04Statement", Pkg: "bql", Thorough: map[string]int{"K": 2, "CASE": 7}, OnlyThorough: true},
 		{Name: "HarnessC04Statement", Pkg: "bql", Thorough: map[string]int{"K": 2, "CASE": 8}, OnlyThorough: true},
 		{Name: "HarnessC04Statement", Pkg: "bql", Thorough: map[string]int{"K": 2, "CASE": 9}, OnlyThorough: true},
-		{Name: "HarnessC04Statement", Pkg: "bql", Thorough: map[string]int{"K": 2, "CASE": 10}, OnlyThorough: true},
 	},
 	"C03": {
 		{Name: "HarnessC03Select", Pkg: "bql", Quick: map[string]int{"K": 2, "TEMPORAL": 1}, Thorough: map[string]int{"K": 3, "TEMPORAL": 1}, ThoroughWall: 90 * time.Minute},
